@@ -39,6 +39,19 @@ CLSN = 'PrefetchedCourierServer'
 def run(ctx: Ctx):
   for r in (r1, r2, r3, r4, r5):
     ctx.guard(r)
+  from mlmverif.props._queue import model as qmodel
+  ctx.include('R-C15-6', '"never leaves a request blocked" / "end marker'
+              ' carrying the return value": the prefetch queue\'s monitor'
+              ' discipline seen from the server — CV discipline (R-C04-1), lock'
+              ' order incl. _generator_lock and no blocking wait while it is'
+              ' held (R-C04-4), return values recorded before consumers are'
+              ' woken (R-C04-6)', _c04_shared, qmodel(ctx), min_instances=10)
+
+
+def _c04_shared(sub, m):
+  from mlmverif.props import c04
+  for r in (c04.r1, c04.r4, c04.r6):
+    r(sub, m)
 
 
 def r1(ctx: Ctx):
